@@ -4,7 +4,7 @@ M4c — the REST gateway's session table under concurrency (C20): requests, DELE
 callbacks racing on any number of sessions, any number of threads, any schedule.
 
 One model step = one lock acquisition / blocking point of `net/rest/rest.go` (function bodies pinned
-to the source text in `Props/Pins.lean`):
+to the source text in `Pins/C20.lean`):
 
   request     R1  `sessionsMtx.Lock()`; `timerMgr.Reset` — refused (401) unless the idle timer is armed;
                   accepted: keep the table lock and go on to
